@@ -421,3 +421,184 @@ Proof.
   vm_compute. split; [reflexivity|]. split; [reflexivity|]. split; [|reflexivity].
   intros [H|(evs & n & m & H & _)]; discriminate.
 Qed.
+
+(* ---- the multi-line heap buffer (Model/MultiLineBuffer.v: Searcher::fill_multi_line_buffer_from_reader /
+   _from_file, the loops that slurp a reader before MultiLine::run; Spec/MultiLineBufferSpec.v) ----
+   14. for EVERY stream, read history (short reads, Interrupted, hard errors), heap limit, buffer left by an
+       earlier search and read_to_end slice policy the fill ends (fuel suffices) in one of three ways: the
+       buffer IS the whole stream (and no limit is hit); the heap-limit error, exactly when a limit h is set
+       and the stream has at least h bytes; a read error that the history really contains.  Never a part.
+   15. without hard errors the outcome is determined: everything, or the heap-limit error (the exact condition).
+   16. the same for the file variant (reserve + read_to_end shortcut without a limit).
+   17. what the buffer held before (contents, capacity) does not matter.
+   18. at search level: an error of the fill is returned with NO sink call; otherwise MultiLine::run sees the stream.
+   19. the abstraction of this step in Model/SearcherGlue.v (fill_multi_line) is what the loops deliver.
+   20. the documentation says the error comes "if the contents exceed the configured heap limit": refuted at
+       the boundary — contents of exactly heap_limit bytes are rejected (finding HeapLimitBoundary, replayed on the crate). *)
+From RG Require Import Model.MultiLineBuffer Spec.MultiLineBufferSpec Proofs.MultiLineBufferProofs.
+
+Theorem ml_fill_never_truncates :
+  forall cap0 heap_limit rooms b stream hist, 0 < cap0 ->
+    fill_allowed heap_limit stream hist
+      (outcome_of (ml_fill_from_reader_cap cap0 heap_limit rooms b {| r_rest := stream; r_hist := hist |})).
+Proof. exact ml_fill_from_reader_allowed. Qed.
+Print Assumptions ml_fill_never_truncates.
+
+Theorem ml_fill_reads_everything :
+  forall heap_limit rooms b stream hist, failure_free hist ->
+    outcome_of (ml_fill_from_reader heap_limit rooms b {| r_rest := stream; r_hist := hist |})
+    = fill_expected heap_limit stream.
+Proof. exact ml_fill_from_reader_reads_everything. Qed.
+Print Assumptions ml_fill_reads_everything.
+
+Theorem ml_fill_from_file_never_truncates :
+  forall heap_limit rooms file_len b stream hist,
+    fill_allowed heap_limit stream hist
+      (outcome_of (ml_fill_from_file heap_limit rooms file_len b {| r_rest := stream; r_hist := hist |})).
+Proof. exact ml_fill_from_file_allowed. Qed.
+Print Assumptions ml_fill_from_file_never_truncates.
+
+Theorem ml_fill_from_file_reads_everything_thm :
+  forall heap_limit rooms file_len b stream hist, failure_free hist ->
+    outcome_of (ml_fill_from_file heap_limit rooms file_len b {| r_rest := stream; r_hist := hist |})
+    = fill_expected heap_limit stream.
+Proof. exact ml_fill_from_file_reads_everything. Qed.
+Print Assumptions ml_fill_from_file_reads_everything_thm.
+
+Theorem ml_fill_previous_buffer_irrelevant :
+  forall cap0 heap_limit rooms b1 b2 r,
+    outcome_of (ml_fill_from_reader_cap cap0 heap_limit rooms b1 r)
+    = outcome_of (ml_fill_from_reader_cap cap0 heap_limit rooms b2 r).
+Proof. exact ml_fill_state_independent. Qed.
+Print Assumptions ml_fill_previous_buffer_irrelevant.
+
+Theorem ml_fill_error_nothing_searched :
+  forall cfg M heap_limit mmap_enabled reply_of rooms b stream hist,
+    let f := ml_fill_from_reader heap_limit rooms b {| r_rest := stream; r_hist := hist |} in
+    let res := fst (fst (search_reader_ml cfg M heap_limit mmap_enabled reply_of rooms b {| r_rest := stream; r_hist := hist |})) in
+    ml_check_config cfg M heap_limit mmap_enabled = true ->
+    match outcome_of f with
+    | FilledWith c => c = stream /\ res = multi_line_run cfg M reply_of stream
+    | HeapLimitError => heap_limit_hit heap_limit stream = true /\ res = RunErr []
+    | ReadError => In RFail hist /\ res = RunErr []
+    | NoAnswer => False
+    end.
+Proof. exact ml_search_reader_outcomes. Qed.
+Print Assumptions ml_fill_error_nothing_searched.
+
+Theorem ml_fill_is_glue_abstraction :
+  forall st rooms b decoded hist, failure_free hist ->
+    outcome_of (ml_fill_from_reader None rooms b {| r_rest := decoded; r_hist := hist |})
+    = FilledWith (ss_ml (fill_multi_line st decoded)).
+Proof. exact ml_fill_refines_glue. Qed.
+Print Assumptions ml_fill_is_glue_abstraction.
+
+(* "If the contents exceed the configured heap limit, then an error is returned": 4 bytes with heap limit 4 do
+   not exceed it and are rejected all the same *)
+Theorem ml_heap_limit_error_only_when_exceeded_refuted :
+  ~ (forall heap_limit rooms b stream hist,
+       outcome_of (ml_fill_from_reader heap_limit rooms b {| r_rest := stream; r_hist := hist |}) = HeapLimitError ->
+       contents_exceed_limit heap_limit stream = true).
+Proof.
+  intros H. specialize (H (Some 4) [] mb_new [97; 98; 99; 10]%N [] (proj1 ml_heap_limit_boundary)).
+  rewrite (proj2 ml_heap_limit_boundary) in H. discriminate.
+Qed.
+Print Assumptions ml_heap_limit_error_only_when_exceeded_refuted.
+
+(* non-vacuity: a limit of 5 lets 4 bytes through 1-byte reads with interruptions (buffer reused from an earlier
+   search); a hard error after the first byte is returned with nothing searched; capacity 2 grows 2 -> 4 -> 5 *)
+Example ml_fill_examples :
+  let s := [97; 98; 99; 10]%N in
+  let old := {| mb_data := [1; 2; 3; 4; 5; 6; 7]%N; mb_cap := 9 |} in
+  failure_free [RChunk 1; RInterrupted; RChunk 1; RInterrupted; RInterrupted; RChunk 1]
+  /\ outcome_of (ml_fill_from_reader (Some 5) [] old
+                   {| r_rest := s; r_hist := [RChunk 1; RInterrupted; RChunk 1; RInterrupted; RInterrupted; RChunk 1] |})
+     = FilledWith s
+  /\ outcome_of (ml_fill_from_reader (Some 5) [] old {| r_rest := s; r_hist := [RChunk 1; RFail] |}) = ReadError
+  /\ outcome_of (ml_fill_from_reader None [2; 1] old {| r_rest := s; r_hist := [RInterrupted] |}) = FilledWith s
+  /\ outcome_of (ml_fill_from_reader (Some 0) [] old {| r_rest := []; r_hist := [] |}) = HeapLimitError
+  /\ (match ml_fill_from_reader_cap 2 (Some 5) [] old {| r_rest := s; r_hist := [] |} with
+      | MlOk b tr _ => (mb_data b, rev tr, mb_cap b) = (s, [2; 2; 1], 9)
+      | _ => False
+      end)
+  /\ (match ml_fill_from_reader_cap 2 (Some 4) [] old {| r_rest := s; r_hist := [] |} with
+      | MlHeapErr b tr _ => rev tr = [2; 2]
+      | _ => False
+      end).
+Proof.
+  cbv zeta. split.
+  - intros [H|[H|[H|[H|[H|[H|[]]]]]]]; discriminate.
+  - vm_compute. repeat split; reflexivity.
+Qed.
+
+(* 21. fuel suffices: both fills always end (every history is finite; every iteration uses up a history entry
+       or at least one byte, or is the last).
+   22. the file variant of 18.
+   23. the multi-line branches of Model/SearcherGlue.v (search_reader_m, search_file_m without a map) return what
+       the searches with the fill loops put in return (no heap limit, no transcoding, failure-free history).
+   24. search_reader reads through encoding_rs_io's pass-through BomPeeker (3-byte prefetch): the loop behind it
+       still delivers everything or the heap-limit error; the prefetch itself cannot fail or hang without a hard
+       error in the history. *)
+Theorem ml_fill_fuel_suffices :
+  forall heap_limit rooms b r, ml_fill_from_reader heap_limit rooms b r <> MlFuel.
+Proof. exact ml_fill_from_reader_fuel_suffices. Qed.
+Print Assumptions ml_fill_fuel_suffices.
+
+Theorem ml_fill_from_file_fuel_suffices_thm :
+  forall heap_limit rooms file_len b r, ml_fill_from_file heap_limit rooms file_len b r <> MlFuel.
+Proof. exact ml_fill_from_file_fuel_suffices. Qed.
+Print Assumptions ml_fill_from_file_fuel_suffices_thm.
+
+Theorem ml_fill_from_file_error_nothing_searched :
+  forall cfg M heap_limit mmap_enabled reply_of rooms file_len b stream hist,
+    let f := ml_fill_from_file heap_limit rooms file_len b {| r_rest := stream; r_hist := hist |} in
+    let res := fst (fst (search_file_ml cfg M heap_limit mmap_enabled reply_of rooms file_len b {| r_rest := stream; r_hist := hist |})) in
+    ml_check_config cfg M heap_limit mmap_enabled = true ->
+    match outcome_of f with
+    | FilledWith c => c = stream /\ res = multi_line_run cfg M reply_of stream
+    | HeapLimitError => heap_limit_hit heap_limit stream = true /\ res = RunErr []
+    | ReadError => In RFail hist /\ res = RunErr []
+    | NoAnswer => False
+    end.
+Proof. exact ml_search_file_outcomes. Qed.
+Print Assumptions ml_fill_from_file_error_nothing_searched.
+
+Theorem ml_search_reader_is_glue_search :
+  forall cfg M mmap_enabled reply_of rooms b st s hist,
+    multi_line_with_matcher cfg M = true -> failure_free hist ->
+    fst (search_reader_m cfg M (fun x => x) reply_of st s hist)
+    = fst (fst (search_reader_ml cfg M None mmap_enabled reply_of rooms b {| r_rest := s; r_hist := hist |})).
+Proof. exact ml_search_reader_agrees_with_glue. Qed.
+Print Assumptions ml_search_reader_is_glue_search.
+
+Theorem ml_search_file_is_glue_search :
+  forall cfg M reply_of rooms b st s hist,
+    multi_line_with_matcher cfg M = true ->
+    fst (search_file_m cfg M false false (fun x => x) reply_of st false s hist)
+    = fst (fst (search_file_ml cfg M None false reply_of rooms (length s) b {| r_rest := s; r_hist := [] |})).
+Proof. exact ml_search_file_agrees_with_glue. Qed.
+Print Assumptions ml_search_file_is_glue_search.
+
+Theorem ml_fill_behind_peeker :
+  forall heap_limit rooms b stream hist, failure_free hist ->
+    exists got tr r', peek_loop (ml_fuel {| r_rest := stream; r_hist := hist |}) 3 [] [] {| r_rest := stream; r_hist := hist |}
+                      = PeekOk got tr r' /\
+      outcome_of (ml_fill_from_reader heap_limit rooms b (peeked_reader got r')) = fill_expected heap_limit stream.
+Proof. exact ml_fill_behind_peeker_lemma. Qed.
+Print Assumptions ml_fill_behind_peeker.
+
+(* non-vacuity of 23/24: a multi-line matcher, 1-byte reads with an interruption inside the 3-byte prefetch *)
+Example ml_glue_and_peeker_example :
+  let cfg := {| c_lt := LTByte 10; c_invert := false; c_after := 0; c_before := 0; c_passthru := false;
+                c_line_number := true; c_stop_on_nonmatch := false; c_binary := BNone; c_multi_line := true |} in
+  let M := scripted cfg [ {| n_anch := false; n_bytes := [97; 10; 98]%N; n_real := true |} ] true 0%N in
+  let K := fun _ : nat => Continue in
+  let s := [97; 10; 98; 10; 99; 10]%N in
+  let h := [RChunk 1; RInterrupted; RChunk 1; RChunk 1; RChunk 1] in
+  multi_line_with_matcher cfg M = true
+  /\ fst (fst (search_reader_ml cfg M (Some 7) false K [] mb_new {| r_rest := s; r_hist := h |}))
+     = RunOk [EBegin; EMatched 0 (Some 1) [97; 10; 98; 10]%N; EFinish 6 None]
+  /\ fst (fst (search_reader_ml cfg M (Some 6) false K [] mb_new {| r_rest := s; r_hist := h |})) = RunErr []
+  /\ peek_loop (ml_fuel {| r_rest := s; r_hist := h |}) 3 [] [] {| r_rest := s; r_hist := h |}
+     = PeekOk [97; 10; 98]%N [1; 2; 2; 3] {| r_rest := [10; 99; 10]%N; r_hist := [RChunk 1] |}.
+Proof. vm_compute. repeat split; reflexivity. Qed.
